@@ -71,6 +71,8 @@ type hProfile struct {
 	ttlBoost int
 	// emptyPartial: index models may carry the empty partial filter {}
 	emptyPartial bool
+	// bigInserts: some insertMany steps insert 13-20 documents with ties
+	bigInserts bool
 }
 
 var allNS = []string{"d1.c1", "d1.c1", "d1.c1", "d1.c2", "d2.c1"}
@@ -413,6 +415,19 @@ func (p *hProfile) genStep(t *rapid.T, view *hView) bson.D {
 		add("doc", p.genDoc(t, view, ns))
 	case "insertMany":
 		n := rapid.IntRange(1, 4).Draw(t, "ndocs")
+		if p.bigInserts && rapid.IntRange(0, 999).Draw(t, "bigins")%6 == 2 {
+			// enough documents for sort implementations to leave their
+			// small-input path, with few distinct values (ties)
+			n = rapid.IntRange(13, 20).Draw(t, "nbig")
+			docs := bson.A{}
+			base := rapid.IntRange(1, 9).Draw(t, "bigbase") * 100
+			for i := 0; i < n; i++ {
+				docs = append(docs, bson.D{{Key: "_id", Value: int32(base + i)}, {Key: "a", Value: int32(i % 3)}, {Key: "b", Value: int32(i % 2)}})
+			}
+			add("docs", docs)
+			add("ordered", false)
+			break
+		}
 		docs := bson.A{}
 		for i := 0; i < n; i++ {
 			d := p.genDoc(t, view, ns)
@@ -537,6 +552,15 @@ func (p *hProfile) genStep(t *rapid.T, view *hView) bson.D {
 	case "bulkWrite":
 		n := rapid.IntRange(1, 4).Draw(t, "nmodels")
 		ms := bson.A{}
+		if docs := view.allDocs(ns); len(docs) > 0 && rapid.IntRange(0, 999).Draw(t, "delonly")%10 == 4 {
+			// a bulk whose only effective items are deletes
+			for i := 0; i < n; i++ {
+				d := rapid.SampledFrom(docs).Draw(t, "deld")
+				kind := rapid.SampledFrom([]string{"deleteOne", "deleteOne", "deleteMany"}).Draw(t, "delk")
+				ms = append(ms, bson.D{{Key: "kind", Value: kind}, {Key: "filter", Value: bson.D{{Key: "_id", Value: getD(d, "_id")}}}})
+			}
+			n = 0
+		}
 		for i := 0; i < n; i++ {
 			ms = append(ms, p.genBulkModel(t, view, ns))
 		}
@@ -559,7 +583,7 @@ func (p *hProfile) genStep(t *rapid.T, view *hView) bson.D {
 		add("keys", rapid.SampledFrom(keys).Draw(t, "dkeys"))
 	case "txnAborted":
 		add("what", rapid.SampledFrom([]string{"dropColl", "dropDB", "create", "deleteAll", "expire"}).Draw(t, "awhat"))
-	case "dropIndexes", "listIndexes", "createColl", "dropColl", "expire":
+	case "dropIndexes", "listIndexes", "createColl", "dropColl", "expire", "litter":
 	case "dropDB", "listColls":
 		db, _ := splitNS(ns)
 		add("db", db)
